@@ -78,6 +78,15 @@ def targeted_programs(dev):
                 {"op": "save", "ext": "none", "fname": "x.gwl.bak/notes.md", "pathkind": "path"},
                 {"op": "save", "fname": "plain.dir/inside.gwl"}, {"op": "save", "fname": "a.gwl.d/b.gwl", "pathkind": "path"}, {"op": "exit"}]
     progs.append(h)
+    # rack labels with Latin-1 letters: the file must address the same racks as the record list
+    h = _hdr("files/latin1-racks", dev)
+    h["lw"][0]["name"] = "N\u00e4hrmedium"
+    h["lw"][1]["name"] = "K\u00fcvetten_\u00b5"
+    h["ops"] = [{"op": "enter"},
+                {"op": "transfer", "src": 1, "sw": L([(0, 0), (1, 0)]), "dst": 0, "dw": L([(0, 1), (1, 1)]), "vols": L([40, 7]), "label": "gr\u00fcn", "wash": 1},
+                {"op": "distribute", "src": 1, "col": 1, "dst": 0, "dw": L([(0, 2), (1, 2)]), "vol": 10, "label": "d"},
+                {"op": "save", "pre": "longer"}, {"op": "exit", "pre": "shorter"}]
+    progs.append(h)
     # a worklist without a path: leaving the block writes nothing
     h = _hdr("files/nopath", dev, file=False)
     h["ops"] = [{"op": "enter"}, some[1], {"op": "exit"}, {"op": "str"}, {"op": "save"}]
